@@ -381,4 +381,74 @@ theorem many_length {rd : Reader α} (n : Nat) :
     exact Post.bind (Post.trivial _) (fun a _ => Post.bind ih (fun as has =>
       Post.pure (by simp [has])))
 
+/-! ### `NoPanic rd`: on no input does `rd` end in the `panic` outcome -/
+
+def NoPanic (rd : Reader α) : Prop := ∀ inp, (rd inp).res ≠ .error .panic
+
+theorem NoPanic.pure (a : α) : NoPanic (Pure.pure a : Reader α) := by
+  intro inp h; cases h
+
+theorem NoPanic.fail {e : Err} (h : e ≠ .panic) : NoPanic (fail e : Reader α) := by
+  intro inp h'
+  have : (Except.error e : Except Err (α × Bytes)) = .error .panic := h'
+  injection this with this; exact h this
+
+theorem NoPanic.bind {f : Reader α} {g : α → Reader β} (hf : NoPanic f) (hg : ∀ a, NoPanic (g a)) :
+    NoPanic (f >>= g) := by
+  intro inp h
+  rw [bind_def] at h
+  cases hr : (f inp).res with
+  | error e =>
+    rw [bind_res_err hr] at h
+    injection h with h; subst h; exact hf inp hr
+  | ok p =>
+    obtain ⟨a, mid⟩ := p
+    rw [bind_res_ok hr] at h
+    exact hg a mid h
+
+theorem NoPanic.ite {c : Prop} [Decidable c] {f g : Reader α} (hf : NoPanic f) (hg : NoPanic g) :
+    NoPanic (if c then f else g) := by
+  split <;> assumption
+
+theorem NoPanic.u8 : NoPanic u8 := by
+  intro inp h; cases inp <;> cases h
+
+theorem NoPanic.takeN (n : Nat) : NoPanic (takeN n) := by
+  intro inp h
+  unfold BinCodec.takeN at h
+  split at h <;> cases h
+
+theorem NoPanic.allocAvail (n : Nat) : NoPanic (allocAvail n) := by
+  intro inp h; cases h
+
+theorem NoPanic.uN (k : Nat) : NoPanic (uN k) :=
+  NoPanic.bind (NoPanic.takeN k) (fun _ => NoPanic.pure _)
+
+theorem NoPanic.iN (k : Nat) : NoPanic (iN k) :=
+  NoPanic.bind (NoPanic.uN k) (fun _ => NoPanic.pure _)
+
+theorem NoPanic.rbool : NoPanic rbool :=
+  NoPanic.bind NoPanic.u8 (fun _ => NoPanic.pure _)
+
+theorem NoPanic.readString : NoPanic readString := by
+  unfold BinCodec.readString
+  refine NoPanic.bind (NoPanic.uN 4) (fun len => NoPanic.bind (NoPanic.allocAvail len) (fun _ =>
+    NoPanic.bind (NoPanic.takeN len) (fun bs => NoPanic.ite (NoPanic.pure _) (NoPanic.fail (by decide)))))
+
+theorem NoPanic.many {rd : Reader α} (h : NoPanic rd) (n : Nat) : NoPanic (readMany rd n) := by
+  induction n with
+  | zero => exact NoPanic.pure []
+  | succ n ih =>
+    unfold readMany
+    exact NoPanic.bind h (fun a => NoPanic.bind ih (fun _ => NoPanic.pure _))
+
+theorem NoPanic.optional {rd : Reader α} (h : NoPanic rd) : NoPanic (optional rd) := by
+  unfold BinCodec.optional
+  exact NoPanic.bind NoPanic.rbool (fun b =>
+    NoPanic.ite (NoPanic.bind h (fun _ => NoPanic.pure _)) (NoPanic.pure _))
+
+theorem NoPanic.readEnum (allowed : List Nat) : NoPanic (readEnum allowed) := by
+  unfold BinCodec.readEnum
+  exact NoPanic.bind NoPanic.u8 (fun _ => NoPanic.ite (NoPanic.pure _) (NoPanic.fail (by simp)))
+
 end VibeProof.BinCodec
